@@ -239,6 +239,13 @@ pub fn configs(prop: &str, thorough: bool) -> Vec<SimConfig> {
                 let mut c = full("n2-lax-is-open", 2, true);
                 c.strict_is_open = false;
                 v.push(c);
+                // the same with an idle timeout and the clock moving (virtual tokio time moves with it)
+                let mut c = full("n2-lax-is-open-ticks", 2, true);
+                c.strict_is_open = false;
+                c.idle_timeout = Some(1);
+                c.max_ticks = 1;
+                c.allow_h2 = false;
+                v.push(c);
             }
             if prop != "C03" && prop != "C19" || thorough {
                 let mut c = full("n2-two-origins", 2, true);
